@@ -61,6 +61,7 @@ func TestC09Writer(t *testing.T) {
 	maxopn := 0
 	if len(beh) > 0 {
 		maxopn = beh[0].Int("maxopn")
+		setBigCut(beh[0].Str("bigcut"))
 	}
 	if maxopn > 0 {
 		pilosa.VerifDurSetMaxOpN(h, maxopn)
